@@ -37,6 +37,7 @@ pub type Gen = fn(&mut Rng, &mut Dist) -> Vec<String>;
 pub fn generator(prop: &str) -> Option<Gen> {
     match prop {
         "C12" => Some(gen::gen_c12),
+        "C03" => Some(gen::gen_c03),
         _ => None,
     }
 }
